@@ -7,7 +7,6 @@ import (
 	"math/rand"
 	"testing"
 
-	"github.com/tokenized/pkg/wire"
 
 	"github.com/tokenized/pkg/bitcoin"
 	"github.com/tokenized/spynode/internal/verifkit"
@@ -33,6 +32,8 @@ func (s c01Step) String() string {
 		return fmt.Sprintf("revive(+%d)", s.N)
 	case "race":
 		return fmt.Sprintf("race(depth=%d,len=%d)", s.D, s.N)
+	case "forkwindow":
+		return fmt.Sprintf("forkwindow(+%d)", s.N)
 	}
 	return s.Op
 }
@@ -91,6 +92,11 @@ func c01Generate(r *rand.Rand, long bool) c01Scenario {
 			// processed the peer switches to a competing branch
 			sc.Steps = append(sc.Steps, c01Step{Op: "settle"}, c01Step{Op: "extend", N: 1 + r.Intn(3)},
 				c01Step{Op: "partial", N: 1 + r.Intn(6)}, c01Step{Op: "reorg", D: 1 + r.Intn(4), N: 1 + r.Intn(3)})
+		case k < 16:
+			// more blocks announced at once than the request window holds, and before they are
+			// all downloaded the peer reorganises from a block the node has requested
+			sc.Steps = append(sc.Steps, c01Step{Op: "settle"}, c01Step{Op: "extend", N: 11 + r.Intn(12)},
+				c01Step{Op: "partial", N: 1 + r.Intn(8)}, c01Step{Op: "forkwindow", N: 1 + r.Intn(3)}, c01Step{Op: "settle"})
 		case k < 20:
 			// back to an abandoned branch that has grown longer
 			sc.Steps = append(sc.Steps, c01Step{Op: "revive", N: 1 + r.Intn(3)})
@@ -195,7 +201,35 @@ func c01RunHook(r *rand.Rand, sc c01Scenario, probeEvery bool, setup func(*dsSim
 			// the peer is slow to serve the requested block: its announcement of the new
 			// branch overtakes the block reply
 			if a := peer.announce(); len(a) > 0 {
-				s.inbox = append(append([]wire.Message(nil), a...), s.inbox...)
+				s.overtakeBlocks(a)
+			}
+		case "forkwindow":
+			// fork at a block the node has requested and not yet processed
+			var cands []*verifkit.Block
+			for _, rq := range s.e.node.state.VerifQueue().Requested {
+				if b := tree.ByHash[rq.Hash]; b != nil && b != peer.tip && b.IsAncestorOf(peer.tip) {
+					cands = append(cands, b)
+				}
+			}
+			base := peer.tip.Parent
+			if len(cands) > 0 {
+				base = cands[r.Intn(len(cands))]
+				s.forkInWindow++
+			}
+			if base == nil {
+				break
+			}
+			nt := base
+			for i := 0; i < peer.tip.Height-base.Height+st.N; i++ {
+				nt = tree.Extend(nt, nil)
+			}
+			abandoned = append(abandoned, peer.tip)
+			peer.tip = nt
+			s.chainChanged()
+			if len(cands) > 0 {
+				if a := peer.announce(); len(a) > 0 {
+					s.overtakeBlocks(a)
+				}
 			}
 		case "revive":
 			if len(abandoned) == 0 {
@@ -268,7 +302,7 @@ func c01Fingerprint(sc c01Scenario) string {
 
 func c01NonTrivial(sc c01Scenario) bool {
 	for _, st := range sc.Steps {
-		if st.Op == "reorg" || st.Op == "restart" || st.Op == "drop" || st.Op == "revive" || st.Op == "race" {
+		if st.Op == "reorg" || st.Op == "restart" || st.Op == "drop" || st.Op == "revive" || st.Op == "race" || st.Op == "forkwindow" {
 			return true
 		}
 	}
@@ -281,40 +315,44 @@ func runDSProperty(t *testing.T, prop string, rep *verifkit.Report, nShort, nLon
 		if !verifkit.Mine(ci) {
 			continue
 		}
-		r := verifkit.Rand("DS", ci)
-		long := ci >= nShort
-		sc := c01Generate(r, long)
-		s, err := c01Run(r, sc, probeEvery)
-		if err != nil {
-			rep.Inconc(ci, "scenario setup: "+err.Error())
-			continue
-		}
-		rep.Event("scenarios", 1)
-		rep.Event("scheduling_steps", int64(s.steps))
-		rep.Event("insync_callbacks_checked", int64(s.inSyncChecked))
-		rep.Event("getheaders_received_by_peer", int64(s.peer.getHeaders))
-		rep.Event("block_getdata_received_by_peer", int64(len(s.peer.getDataSeq)))
-		rep.Event("block_requests_judged_on_the_wire", int64(s.wireRequests))
-		rep.Event("block_rerequests_after_abandoned_branch", int64(s.rerequests))
-		if s.maxRequested >= 10 {
-			rep.Event("scenarios_reaching_full_window", 1)
-		}
-		for _, st := range sc.Steps {
-			rep.Event("step:"+st.Op, 1)
-		}
-		for _, f := range s.finds {
-			if f.prop != prop {
-				rep.Event("other_property_findings:"+f.sig, 1)
-				continue
+		ci := ci
+		verifkit.RunCase(rep, ci, func() {
+			r := verifkit.Rand("DS", ci)
+			long := ci >= nShort
+			sc := c01Generate(r, long)
+			s, err := c01Run(r, sc, probeEvery)
+			if err != nil {
+				rep.Inconc(ci, "scenario setup: "+err.Error())
+				return
 			}
-			w := s.witness()
-			w["scenario"] = sc
-			rep.Finding(ci, f.sig, f.detail+" | scenario: initial="+fmt.Sprint(sc.Initial)+" start="+fmt.Sprint(sc.Start)+" "+sc.PolDesc+" steps="+fmt.Sprint(sc.Steps), w)
-		}
-		rep.Case(c01Fingerprint(sc), c01NonTrivial(sc))
-		if rep.WantSample() {
-			rep.Sample(map[string]interface{}{"scenario": sc, "steps": fmt.Sprint(sc.Steps), "final_height": s.peer.tip.Height})
-		}
+			rep.Event("scenarios", 1)
+			rep.Event("scheduling_steps", int64(s.steps))
+			rep.Event("insync_callbacks_checked", int64(s.inSyncChecked))
+			rep.Event("getheaders_received_by_peer", int64(s.peer.getHeaders))
+			rep.Event("block_getdata_received_by_peer", int64(len(s.peer.getDataSeq)))
+			rep.Event("block_requests_judged_on_the_wire", int64(s.wireRequests))
+			rep.Event("block_rerequests_after_abandoned_branch", int64(s.rerequests))
+		rep.Event("forks_at_a_requested_unprocessed_block", int64(s.forkInWindow))
+			if s.maxRequested >= 10 {
+				rep.Event("scenarios_reaching_full_window", 1)
+			}
+			for _, st := range sc.Steps {
+				rep.Event("step:"+st.Op, 1)
+			}
+			for _, f := range s.finds {
+				if f.prop != prop {
+					rep.Event("other_property_findings:"+f.sig, 1)
+					continue
+				}
+				w := s.witness()
+				w["scenario"] = sc
+				rep.Finding(ci, f.sig, f.detail+" | scenario: initial="+fmt.Sprint(sc.Initial)+" start="+fmt.Sprint(sc.Start)+" "+sc.PolDesc+" steps="+fmt.Sprint(sc.Steps), w)
+			}
+			rep.Case(c01Fingerprint(sc), c01NonTrivial(sc))
+			if rep.WantSample() {
+				rep.Sample(map[string]interface{}{"scenario": sc, "steps": fmt.Sprint(sc.Steps), "final_height": s.peer.tip.Height})
+			}
+		})
 	}
 }
 
